@@ -143,7 +143,22 @@ func propC19(c *ctx) error {
 				}
 				f2 := fn
 				defs = append(defs, &f2)
-				sb.WriteString(`<div :define="` + fn + `">x</div>`)
+				// the defining element in every shape: with content, empty, self-closing block, void element, and with a
+				// further definition nested inside it (pre-order: the outer name first)
+				switch r.n(6) {
+				case 0:
+					sb.WriteString(`<div :define="` + fn + `"></div>`)
+				case 1:
+					sb.WriteString(`<t:block :define="` + fn + `"/>`)
+				case 2:
+					sb.WriteString(`<br :define="` + fn + `">`)
+				case 3:
+					inner := fmt.Sprintf("in-%d-%d", k, q)
+					defs = append(defs, &inner)
+					sb.WriteString(`<div :define="` + fn + `"><p><i :define="` + inner + `"></i></p></div>`)
+				default:
+					sb.WriteString(`<div :define="` + fn + `">x</div>`)
+				}
 			}
 			if r.p(8) && strings.HasSuffix(p, ".html") {
 				sb.WriteString("<p") // unparsable matching file
